@@ -29,7 +29,7 @@ TEXT = ("TLC explores every interleaving of senders, callers, stop requests, the
         "seeded random multi-threaded programs are checked against the same predicates directly and validated by TLC "
         "against the model's actions (call/return linearization).")
 NOTE = ("Directed programs every batch: 18 group layouts (member full / closed-unpruned / live x join order x cursor) and 6 "
-        "failed-start-then-respawn programs with the failed incarnation's Drop gated. Model bounds: capacity 1..2, 2 senders x 2 messages + stop (casts; calls), 3 messages with failures, 2 racing named "
+        "failed-start-then-respawn programs (Drop gated), 4 spawn races inside a gated pre_start. A recorder process that dies is reported as a violation of the program in progress. Model bounds: capacity 1..2, 2 senders x 2 messages + stop (casts; calls), 3 messages with failures, 2 racing named "
         "spawns + lookups, supervisor respawn, 2 group members x 3 group sends. Recorded programs: <= 8 actors, <= 4 client "
         "threads, 1..3 workers. No hook in /repo: actors and clients log themselves, ordering by sequence number at the "
         "logging point. A hang is declared only after a 20 s watchdog counted from the observed actor exit. Not covered: "
@@ -85,6 +85,7 @@ def oracle(ev):
     joins = {}             # a -> first gjoin.call i
     sup_events = {}        # a -> [(k, i)]
     trouble = {}           # a -> first i of anything that may close the mailbox
+    admitted = {}          # a -> i of start.enter (the actor task runs: its spawn was admitted)
     for e in ev:
         t = e["e"]
         i = e["i"]
@@ -100,6 +101,8 @@ def oracle(ev):
             spawns[a]["res"] = e["res"]
             if e["res"] in ("unavailable", "workerstopped"):
                 v("spawn-unexpected", "spawn of actor %s returned %s on a running cluster" % (a, e["res"]))
+        elif t == "start.enter":
+            admitted.setdefault(e["a"], i)
         elif t == "hook":
             hooks.setdefault(e["a"], []).append((e["h"], e["ok"], i))
             if not e["ok"] or e["h"] == "pre_stop":
@@ -335,23 +338,36 @@ def oracle(ev):
         rel = released_i(found)
         if rel is not None and rel < ci:
             v("visible-after-exit", "lookup(%s) found actor %s after its exit / failed start was reported" % (nm, found))
-    for a, sa in named.items():
-        pa = hook_i(a, "pre_start")
-        if pa is None:
-            continue
-        enda = hook_i(a, "post_stop")
-        for b, sb in named.items():
-            if b <= a or sb["name"] != sa["name"]:
+    # two actors of one name must never both hold it: an actor certainly holds its name from the moment its task
+    # runs (start.enter, the reservation precedes it) until it logs a failing pre_start resp. its post_stop
+    def holds(a):
+        lo = admitted.get(a)
+        if lo is None:
+            return None
+        pre = [(ok, i) for (h, ok, i) in hooks.get(a, []) if h == "pre_start"]
+        if pre and not pre[0][0]:
+            return (lo, pre[0][1])
+        hi = hook_i(a, "post_stop")
+        return (lo, hi if hi is not None else 10 ** 9)
+    ids_named = sorted(named)
+    for x in range(len(ids_named)):
+        for y in range(x + 1, len(ids_named)):
+            a, b = ids_named[x], ids_named[y]
+            if named[a]["name"] != named[b]["name"]:
                 continue
-            pb = hook_i(b, "pre_start")
-            if pb is None:
+            ha, hb = holds(a), holds(b)
+            if ha and hb and ha[0] < hb[1] and hb[0] < ha[1]:
+                v("two-live-actors-one-name", "name %s: actors %s and %s were both admitted and alive at the same time "
+                  "(events %s..%s and %s..%s)" % (named[a]["name"], a, b, ha[0], ha[1], hb[0], hb[1]))
+    # a started actor stays visible under its name until it stops: from the return of its spawn to its post_stop
+    for (nm, ci, ri, found) in lookups:
+        for a, sa in named.items():
+            if sa["name"] != nm or sa["res"] != "ok" or sa["ret_i"] is None or sa["ret_i"] > ci:
                 continue
-            endb = hook_i(b, "post_stop")
-            first, fend, second = (a, enda, pb) if pa < pb else (b, endb, pa)
-            pre_ok = [ok for (h, ok, i) in hooks[first] if h == "pre_start"][0]
-            if pre_ok and (fend is None or fend > second):
-                v("name-unique", "name %s: actor %s started while actor %s was still live" %
-                  (sa["name"], b if first == a else a, first))
+            pst = hook_i(a, "post_stop")
+            if (pst is None or pst > ri) and found != a:
+                v("lookup-misses-live-actor", "lookup(%s) returned %s while actor %s, started under that name, was alive" %
+                  (nm, "nothing" if found is None or found < 0 else "actor %s" % found, a))
     for a, sa in named.items():
         if sa["res"] != "nametaken":
             continue
@@ -514,6 +530,10 @@ def model_check(run, tier):
         rc = None
         if tier != "quick":
             rc = ex.submit(lambda: vlib.tlc("Actor", "MC_Actor_registry_ctl.cfg", workers=1, timeout=600, coverage=False, jvm=JVM_FAST)).result()
+            rc2 = ex.submit(lambda: vlib.tlc("Actor", "MC_Actor_registry_ctl2.cfg", workers=1, timeout=600, coverage=False, jvm=JVM_FAST)).result()
+            if rc2.violated != "RegistrySound" or rc2.error:
+                raise vlib.ToolError("registry control 2: expected RegistrySound to be violated with ReserveIgnoresStarting, "
+                                     "got %s %s" % (rc2.violated, rc2.error))
     # the repaired close (DrainOnClose) is only exercised by MC_Actor_call_fixed.cfg, which runs in the thorough tier
     skip = TRACE_ONLY | ({"CloseRxDrains"} if tier == "quick" else set())
     zero = sorted(a for a, (d, t) in cover.items() if t == 0 and a not in skip)
@@ -538,23 +558,83 @@ def model_check(run, tier):
 
 
 def record(tmp, tag, seed, runs, hang_ms, replay=None):
-    trace = os.path.join(tmp, tag + ".ndjson")
-    progs = os.path.join(tmp, tag + "_progs.jsonl")
-    args = [trace, progs, seed, runs, hang_ms]
-    if replay:
-        args.append(replay)
-    rc, out, err = vlib.run_bin("record_actor", args, timeout=3000)
-    lines = vlib.jsonl(out)
-    summary = [l for l in lines if l.get("type") == "summary"]
-    if not summary:
-        raise vlib.ToolError("record_actor produced no summary\n%s" % err[-2000:])
-    problems = [l for l in lines if l.get("type") in ("contract", "panic", "hang", "mismatch")]
-    programs = {}
-    with open(progs) as f:
-        for line in f:
-            o = json.loads(line)
-            programs[o["run"]] = o
-    return read_runs(trace), programs, summary[0], problems
+    """Runs the recorder. When the process dies (signal / abort inside the code under test) or gives a run up as wedged,
+    that is DATA: the program in progress is reported as a problem (with the program as replay) and the remaining
+    programs are recorded in a fresh process."""
+    all_runs, programs, problems = [], {}, []
+    total = {"type": "summary", "cases": 0, "steps": 0, "parked_runs": 0, "aborted": False, "killed": 0, "lost_runs": 0}
+    first = 0
+    launches = 0
+    while first < int(runs) and launches < 8:
+        launches += 1
+        trace = os.path.join(tmp, "%s_%d.ndjson" % (tag, launches))
+        progs = os.path.join(tmp, "%s_%d_progs.jsonl" % (tag, launches))
+        args = [trace, progs, seed, runs, hang_ms, replay or "-", first]
+        rc, out, err = vlib.run_bin("record_actor", args, timeout=3000, check=False)
+        lines = []
+        for line in out.splitlines():
+            line = line.strip()
+            if line.startswith("{"):
+                try:
+                    lines.append(json.loads(line))
+                except ValueError:
+                    pass                      # a line cut short by the death of the process
+        problems += [l for l in lines if l.get("type") in ("contract", "panic", "hang", "mismatch")]
+        summary = [l for l in lines if l.get("type") == "summary"]
+        started, done = {}, {}
+        if os.path.exists(progs):
+            with open(progs) as f:
+                for line in f:
+                    try:
+                        o = json.loads(line)
+                    except ValueError:
+                        continue
+                    if o.get("state") == "start":
+                        started[o["run"]] = o
+                    elif o.get("state") == "done":
+                        done[o["run"]] = o
+        for k, o in started.items():
+            programs[k] = {"run": k, "prog": o.get("prog")}
+            programs[k].update({x: y for x, y in done.get(k, {}).items() if x not in ("run", "state")})
+        got = []
+        if os.path.exists(trace):
+            try:
+                got = read_runs(trace)
+            except ValueError:
+                got = []
+        # only runs whose trace was written completely (their "done" line follows the trace)
+        got = [r for r in got if r and r[0].get("run") in done and len(r) == done[r[0]["run"]].get("events", len(r))]
+        all_runs += got
+        total["steps"] += sum(len(r) for r in got)
+        total["cases"] += len(got)
+        if summary and rc == 0:
+            total["parked_runs"] += summary[0].get("parked_runs", 0)
+            at = summary[0].get("aborted_at")
+            if at is None:
+                break
+            total["aborted"] = True          # the recorder gave the run up as wedged (already reported as a hang problem)
+            first = at + 1
+            continue
+        # the process died
+        if not started:
+            raise vlib.ToolError("record_actor failed before the first program (rc=%s)\n%s" % (rc, err[-2000:]))
+        inprog = sorted(k for k in started if k not in done)
+        lost = sorted(k for k in done if done[k].get("parked") and k not in {r[0].get("run") for r in got})
+        total["lost_runs"] += len(lost)
+        total["killed"] += 1
+        k = inprog[-1] if inprog else max(started)
+        sig = -rc if rc is not None and rc < 0 else None
+        how = ("killed by signal %d" % sig) if sig else ("ended with exit code %s" % rc)
+        prog = started[k].get("prog") or {}
+        problems.append({"type": "panic",
+                         "sig": {"site": "process", "pred": "recorder-process-died", "class": prog.get("class")},
+                         "desc": "run %s: the record_actor process was %s while running program %s (class %s): a panic "
+                                 "inside the code under test that cannot be caught (panic while panicking / in a Drop); "
+                                 "stderr tail: %s" % (k, how, k, prog.get("class"), err[-300:].replace("\n", " | ")),
+                         "case": {"program": prog}})
+        vlib.log("  record_actor %s during run %s; continuing with run %s in a fresh process" % (how, k, k + 1))
+        first = k + 1
+    return all_runs, programs, total, problems
 
 
 def judge(run, tmp, tag, runs, programs, summary, problems, timeout):
